@@ -41,6 +41,8 @@ class Call(Expression):
 
 
 class KeywordArg:
+    is_keyword_arg = True
+
     def __init__(self, name, expr):
         self.name = name
         self.expr = expr
